@@ -15,7 +15,8 @@ using namespace vt;
 
 // d_nan: the map reports a NaN density for one channel (the weight is NaN; the other channel's density stays finite)
 // d_nan_dis: the NaN density belongs to a *disabled* channel (weight 0): 0 x NaN is still NaN, the point has no usable weight
-enum poison { none = 0, f_nan, f_pinf, f_ninf, proj_nan, proj_inf, w_inf, d_nan, d_nan_dis };
+// proj_big: the value handed to the distributions is finite (max / 1.5), its product with a point weight of two or more is not
+enum poison { none = 0, f_nan, f_pinf, f_ninf, proj_nan, proj_inf, w_inf, d_nan, d_nan_dis, proj_big };
 
 struct plan
 {
@@ -47,10 +48,15 @@ template <typename T> static T poisoned_value(plan& p, T clean, bool can_winf)
     return r;
 }
 
-template <typename T> static void fill(plan& p, hep::projector<T>& pr, T x, T clean)
+template <typename T> static void fill(plan& p, hep::projector<T>& pr, T x, T clean, T weight = T(1))
 {
     int k = p.at();
     T v = clean;
+    if (k == proj_big)
+    {
+        if (!(weight >= T(2))) k = none;   // (the product stays finite: an ordinary fill)
+        else { if (p.lane_z) return; v = std::numeric_limits<T>::max() / T(1.5); }
+    }
     if (k == proj_nan) v = std::numeric_limits<T>::quiet_NaN();
     if (k == proj_inf) v = -std::numeric_limits<T>::infinity();
     // lane Z: the poisoned value is not handed over at all.  (Handing over an exact zero instead is not the same thing bit for bit: adding
@@ -117,7 +123,7 @@ template <typename T> static std::vector<lane_rec<T>> run_lane(int kind, plan p,
             T x = pt.point()[0];
             T c = base_f(x) * (T(1) + pt.point()[1]);
             T v = poisoned_value(p, c, false);
-            fill(p, pr, x, c);
+            fill(p, pr, x, c, pt.weight());
             ++p.call;
             return v;
         };
@@ -213,7 +219,8 @@ template <typename T> static void run_pair(int run, int kind, rng& g, bool dists
     for (std::size_t i = 0; i != len; ++i)
     {
         int k = none;
-        if (g.below((unsigned) density) == 0) k = 1 + (int) g.below(8);
+        if (g.below((unsigned) density) == 0) k = 1 + (int) g.below(9);
+        if (k == proj_big && (!dists || kind != 1)) k = f_pinf;
         if (k == w_inf && kind != 2) k = f_ninf;
         if ((k == d_nan || k == d_nan_dis) && kind != 2) k = f_nan;
         if ((k == proj_nan || k == proj_inf) && !dists) k = f_pinf;
